@@ -23,6 +23,8 @@ struct CCtx { long k; };
 struct TTc { constexpr long operator()(std::string_view sv) const { return long(sv.size()) * 13 + (sv.size() ? long((unsigned char)sv[0]) : 0); } };
 template<int R> struct HX { template<class C, class... A> constexpr long operator()(const C& c, const A&... a) const { long h = R * 1000003L + c.k; ((h = (h * 31 + cval(a)) % 2147483647L), ...); return h; } };
 template<class O> constexpr long ov(const O& o) { return o.has_value() ? *o : NONE; }
+// a string_buffer that was moved and then copied after its construction (short texts live inside the std::string object)
+inline ctpg::buffers::string_buffer travelled(const std::string& s) { ctpg::buffers::string_buffer a{ std::string(s) }; ctpg::buffers::string_buffer b(std::move(a)); ctpg::buffers::string_buffer c(b); return c; }
 inline std::string last_exc;
 template<bool ctx, class P, class B> long rt_parse(const P& p, const B& b, int opt)
 {
@@ -84,7 +86,7 @@ def emit_one(g, gi, inputs, ctx):
         o.append('    long v[8]; int vi = 0; vf::last_exc.clear();')
         for pobj in ('p', 'rt()'):
             cx = 'true' if ctx else 'false'
-            o.append('    v[vi++] = vf::rt_parse<%s>(%s, cstring_buffer(%s), %d); v[vi++] = vf::rt_parse<%s>(%s, string_buffer(std::string(s)), %d); v[vi++] = vf::rt_parse<%s>(%s, string_view_buffer(std::string_view(m.get(), s.size())), %d); v[vi++] = vf::rt_parse<%s>(%s, cb, %d);' % (
+            o.append(('    v[vi++] = vf::rt_parse<%s>(%s, cstring_buffer(%s), %d); v[vi++] = vf::rt_parse<%s>(%s, ' + ('string_buffer(std::string(s))' if pobj == 'p' else 'vf::travelled(s)') + ', %d); v[vi++] = vf::rt_parse<%s>(%s, string_view_buffer(std::string_view(m.get(), s.size())), %d); v[vi++] = vf::rt_parse<%s>(%s, cb, %d);') % (
                 cx, pobj, lit, opt, cx, pobj, opt, cx, pobj, opt, cx, pobj, opt))
         o.append('    if (!vf::last_exc.empty()) std::printf("X %s\\n", vf::last_exc.c_str());')
         o.append('    std::printf("C %d %d %%ld %%ld %%ld %%ld %%ld %%ld %%ld %%ld %%ld %%ld %%ld %%ld\\n", c%d, v[0], v[1], v[2], v[3], v[4], v[5], v[6], v[7], cb.oob_deref, cb.oob_form, cb.bad_view); }' % (gi, k, k))
